@@ -32,8 +32,8 @@ _nf = os.path.join(_d, "C14_nofail.json")
 NOFAIL = set(json.load(open(_nf))) if os.path.exists(_nf) else set()
 
 FAILN = {"ADD_IOVEC": 3, "ADDBUFREF": 3}     # fault positions per step (default 2); the harness asserts the step makes no further allocation
-PRE_Q = [[], [(A, "ADD", 3)], [(A, "ADD", 16)], [(A, "PREPEND", 3)], [(A, "REF", 3)], [(A, "ADD", 15), (A, "DRAIN", 4)]]
-PA_Q = [[], [(A, "ADD", 3)], [(A, "EXPAND", 8)]]
+PRE_Q = [[], [(A, "ADD", 3)], [(A, "ADD", 16)], [(A, "PREPEND", 3)], [(A, "ADD", 15), (A, "DRAIN", 4)]]
+PA_Q = [[], [(A, "ADD", 3)]]
 PB_Q = [[(B, "ADD", 3)], [(B, "ADD", 17)], [(B, "ADD", 16), (B, "ADD", 3)]]
 
 def gen(tier, calibrate=False):
@@ -43,13 +43,13 @@ def gen(tier, calibrate=False):
         name = C12.evb_split(14, pre, fin, **dict(kw))["name"]
         kw.setdefault("desc_extra", "")
         kw["desc_extra"] += "; the 1st..%dth allocation of the step fails (solver-chosen, 0 = none)" % FAILN.get(fin[1], 2)
-        if fin[1] in ("PULLUP", "EXPAND"): kw.setdefault("solver", "kissat")
+        if fin[1] in ("PULLUP", "EXPAND", "RESERVE_COMMIT2"): kw.setdefault("solver", "kissat")
         return C12.evb_split(14, pre, fin, extra_defs=xd, wit_failpath=(calibrate or name not in NOFAIL), **kw)
-    def tmo(fk): return dict(timeout=900 if tier == "quick" else 1500, mem_gb=5)
+    def tmo(fk): return dict(timeout=900 if tier == "quick" else 1500, mem_gb=8 if fk == "ADD_IOVEC" else 5)
     if tier == "quick":
         for pre in PRE_Q:
             for fk in ALLOC_1:
-                if fk == "ADD_IOVEC" and pre != []: continue
+                if fk == "ADD_IOVEC": continue          # 52 x 4 copies of the step: out of the quick budget (thorough only)
                 obs.append(mk(pre, (A, fk), **tmo(fk)))
         for x in PA_Q:
             for y in PB_Q:
@@ -68,8 +68,8 @@ def gen(tier, calibrate=False):
                     if fk in ("ADDBUF", "PREPENDBUF") and (x, y) not in [(C12.PA_T[1], C12.PB_T[1])]: continue
                     obs.append(mk(x + y, (A, fk), **tmo(fk)))
     # callbacks attached: a failed operation must not be reported to callbacks either
-    for pre in [[(A, "PREPEND", 3)], [(A, "ADD", 16)]]:
-        for fk in ["ADD", "PREPEND", "REF"]:
+    for pre in ([[(A, "PREPEND", 3)]] if tier == "quick" else [[(A, "PREPEND", 3)], [(A, "ADD", 16)]]):
+        for fk in (["PREPEND", "ADD"] if tier == "quick" else ["ADD", "PREPEND", "REF"]):
             obs.append(mk(pre, (A, fk), cb=1, name_prefix="cb1_", **tmo(fk)))
     for fk in ["REMOVEBUF", "ADDBUFREF"]:
         obs.append(mk([(A, "ADD", 3), (B, "ADD", 17)], (A, fk), cb=1, name_prefix="cb1_", **tmo(fk)))
